@@ -1,10 +1,20 @@
 package verifsim
 
 import (
+	"bytes"
 	"encoding/json"
 	"fmt"
+	"io"
+	"net/http/httptest"
+	"os"
 	"testing/synctest"
 	"time"
+
+	"github.com/labstack/echo/v4"
+
+	"github.com/mimiro-io/datahub/internal/content"
+	"github.com/mimiro-io/datahub/internal/security"
+	"github.com/mimiro-io/datahub/internal/web"
 
 	"github.com/DataDog/datadog-go/v5/statsd"
 
@@ -121,4 +131,129 @@ func (h *Hub) LastResult(id string) map[string]any {
 	return nil
 }
 
-type webLayer struct{}
+type webLayer struct {
+	Echo *echo.Echo
+	Core *security.ServiceCore
+	Svc  *web.WebService
+}
+
+const (
+	adminUser = "admin-key"
+	adminPass = "admin-secret"
+	nodeID    = "node1"
+)
+
+// FixtureDir holds the node's RSA key pair, generated once by setup (4096-bit keys take seconds).
+func FixtureDir() string {
+	if d := os.Getenv("VERIF_FIXTURES"); d != "" {
+		return d
+	}
+	return "/verif/build/fixtures"
+}
+
+// EnsureFixtures creates the key fixture if it is missing.
+func EnsureFixtures() error {
+	d := FixtureDir()
+	if _, err := os.Stat(d + "/node_key.pub"); err == nil {
+		return nil
+	}
+	if err := os.MkdirAll(d, 0o755); err != nil {
+		return err
+	}
+	priv, pub := security.GenerateRsaKeyPair()
+	pp, err := security.ExportRsaPrivateKeyAsPem(priv)
+	if err != nil {
+		return err
+	}
+	pubp, err := security.ExportRsaPublicKeyAsPem(pub)
+	if err != nil {
+		return err
+	}
+	tmp := fmt.Sprintf("%s/.tmp-%d", d, os.Getpid())
+	if err := os.WriteFile(tmp+"-k", []byte(pp), 0o600); err != nil {
+		return err
+	}
+	if err := os.WriteFile(tmp+"-p", []byte(pubp), 0o600); err != nil {
+		return err
+	}
+	_ = os.Rename(tmp+"-k", d+"/node_key")
+	return os.Rename(tmp+"-p", d+"/node_key.pub")
+}
+
+// OpenWebHub opens a complete hub: store, jobs, security and the HTTP router with its
+// middlewares. secure selects Auth.Middleware=local (JWT + ACL) instead of noop.
+func OpenWebHub(dir, secDir string, knobs map[string]int64, secure bool) (h *Hub, err error) {
+	defer func() {
+		if r := recover(); r != nil {
+			err = fmt.Errorf("open panicked: %v", r)
+		}
+	}()
+	env := newEnv(dir, knobs)
+	env.RunnerConfig = &conf.RunnerConfig{PoolIncremental: int(knobOr(knobs, "poolIncr", 4)), PoolFull: int(knobOr(knobs, "poolFull", 2)), Concurrent: 1}
+	env.SecurityStorageLocation = secDir
+	env.AdminUserName, env.AdminPassword, env.NodeID = adminUser, adminPass, nodeID
+	env.Auth = &conf.AuthConfig{Middleware: "noop", WellKnown: "http://wellknown.invalid/jwks.json"}
+	if secure {
+		env.Auth.Middleware = "local"
+	}
+	if err := os.MkdirAll(secDir, 0o755); err != nil {
+		return nil, err
+	}
+	for _, f := range []string{"node_key", "node_key.pub"} {
+		if _, err := os.Stat(secDir + "/" + f); err != nil {
+			b, err := os.ReadFile(FixtureDir() + "/" + f)
+			if err != nil {
+				return nil, fmt.Errorf("key fixture missing (run bin/setup.sh): %w", err)
+			}
+			if err := os.WriteFile(secDir+"/"+f, b, 0o600); err != nil {
+				return nil, err
+			}
+		}
+	}
+	h = &Hub{Dir: dir, Env: env, Full: &FullHub{Web: &webLayer{}}, Logs: lastObserved}
+	h.Full.Bus, err = server.NewBus(env)
+	if err != nil {
+		return nil, err
+	}
+	h.Store = server.NewStore(env, &statsd.NoOpClient{})
+	h.Dsm = server.NewDsManager(env, h.Store, h.Full.Bus)
+	h.PfxE, err = h.Store.NamespaceManager.AssertPrefixMappingForExpansion(ExE)
+	if err != nil {
+		return nil, err
+	}
+	h.PfxS, err = h.Store.NamespaceManager.AssertPrefixMappingForExpansion(ExS)
+	if err != nil {
+		return nil, err
+	}
+	pm := security.NewProviderManager(env, h.Store, env.Logger)
+	core := security.NewServiceCore(env)
+	tps := security.NewTokenProviders(env.Logger, pm, core)
+	h.Full.Runner = jobs.NewRunner(env, h.Store, tps, h.Full.Bus, &statsd.NoOpClient{})
+	h.Full.Sched = jobs.NewScheduler(env, h.Store, h.Dsm, h.Full.Runner)
+	cs := content.NewContentService(env, h.Store, &statsd.NoOpClient{})
+	ws, err := web.NewWebService(&web.ServiceContext{Env: env, Logger: env.Logger, Statsd: &statsd.NoOpClient{}, SecurityCore: core,
+		ContentService: cs, DatasetManager: h.Dsm, Store: h.Store, EventBus: h.Full.Bus, TokenProviders: tps, JobsScheduler: h.Full.Sched, Port: "0"})
+	if err != nil {
+		return nil, err
+	}
+	h.Full.Web.Svc, h.Full.Web.Echo, h.Full.Web.Core = ws, ws.VerifEcho(), core
+	return h, nil
+}
+
+// Do serves one HTTP request through the real router, middlewares and handlers.
+func (h *Hub) Do(method, path string, headers map[string]string, body []byte) (status int, resp []byte) {
+	var rd io.Reader
+	if body != nil {
+		rd = bytes.NewReader(body)
+	}
+	req := httptest.NewRequest(method, path, rd)
+	for k, v := range headers {
+		req.Header.Set(k, v)
+	}
+	if body != nil && req.Header.Get("Content-Type") == "" {
+		req.Header.Set("Content-Type", "application/json")
+	}
+	rec := httptest.NewRecorder()
+	h.Full.Web.Echo.ServeHTTP(rec, req)
+	return rec.Code, rec.Body.Bytes()
+}
